@@ -902,7 +902,7 @@ func genBrw(r *Rand, n int, emit func(string)) {
 func init() {
 	register(&Family{
 		Name: "bio",
-		Rule: "prefix.Reader scripts (ReadBits 0..56, TryReadBits, ReadPads, raw Read when aligned, Flush, ReadSymbol with a random complete code, BitsRead) over random bytes, both bit orders, a scripted Peek-capable source with adversarial Buffered() answers or a ReadByte-only source, with and without an injected source error; each script is repeated over bytes.Reader, bytes.Buffer, strings.Reader, bufio 16/17/4096 over fragmenting readers, Read-only, one-byte-per-call and data-with-EOF sources and must return the same values. prefix.Writer scripts (WriteBits, WritePads, raw Write, Flush, WriteSymbol) over a logging sink with optional hard/short, once/forever faults; fault-free scripts are read back through four source kinds. Distinct by script",
+		Rule: "prefix.Reader scripts (ReadBits 0..56, TryReadBits, ReadPads, raw Read when aligned, Flush, ReadSymbol with a random complete code, BitsRead) over random bytes, both bit orders, a scripted Peek-capable source with adversarial Buffered() answers or a ReadByte-only source, with and without an injected source error; each script is repeated over bytes.Reader, bytes.Buffer, strings.Reader, bufio 16/17/4096 over fragmenting readers, Read-only, one-byte-per-call and data-with-EOF sources and must return the same values; over bytes.Reader, strings.Reader and bytes.Buffer each script also runs through the concrete model of the wrap.go wrappers (kind brw: values, offsets, errors, bytes left in the source object), and dedicated brw scripts (sources of up to three cache lengths, raw reads bypassing the cache, owner Seeks into/before/beyond the cached window) Init the same Reader a second and third time on the same object after Reset or on another object at a non-zero offset, also compared with a new Reader on a new object. prefix.Writer scripts (WriteBits, WritePads, raw Write, Flush, WriteSymbol) over a logging sink with optional hard/short, once/forever faults; fault-free scripts are read back through four source kinds. Distinct by script",
 		Gen:  genBio,
 		Exec: execBio,
 	})
